@@ -16,7 +16,7 @@ REPO = os.environ.get("WHEATLEY_REPO", "/repo")
 COQ = os.path.join(VERIF, "coq")
 THEORIES = os.path.join(COQ, "theories")
 WORK = os.path.join(VERIF, ".work", str(os.getpid()))
-EVIDENCE = os.path.join(VERIF, "evidence")
+EVIDENCE = os.environ.get("VERIF_EVIDENCE_DIR") or os.path.join(VERIF, "evidence")
 REPLAYS = os.path.join(EVIDENCE, "replays")
 JOBS = int(os.environ.get("VERIF_JOBS", "16"))
 
